@@ -51,7 +51,7 @@ func sceneNewBatch(o ReqOpts) {
 	chk("C05", vf.ModuleBalance(types.DepositAccName).Equal(s.DepAcc0), "deposits-untouched")
 	if issue {
 		vf.Reach("issued")
-		chk("C06 C12 C16", nreq == cnt && nact == cnt && nresp == 0, "requests-exactly-eligible")
+		chk("C06 C12 C16", vf.All(nreq == cnt, nact == cnt, nresp == 0), "requests-exactly-eligible")
 		idx := 0
 		for i := 0; i < s.N; i++ {
 			if !elig[i] {
@@ -63,7 +63,7 @@ func sceneNewBatch(o ReqOpts) {
 			vf.Assume(ok)
 			chk("C06 C18", req.Provider.Equals(s.Provs[i]), "request-provider")
 			chk("C06 C08 C16", k.IsRequestActive(ctx, rid), "request-active")
-			chk("C08 C11", req.ExpirationHeight == s.H+timeout && req.RequestHeight == s.H, "request-expiry-fixed-at-issue")
+			chk("C08 C11", vf.All(req.ExpirationHeight == s.H+timeout, req.RequestHeight == s.H), "request-expiry-fixed-at-issue")
 			chk("C16 C18", vf.And(req.RequestContextBatchCounter == bc+1, string(req.RequestContextId) == string(id)), "request-belongs-to-batch")
 			if pre.SuperMode {
 				chk("C07 C02", req.ServiceFee.Empty(), "super-no-fee")
@@ -81,31 +81,31 @@ func sceneNewBatch(o ReqOpts) {
 			chk("C02 C07 C01", s.BalC0.Sub(balC1).Equal(total), "debit-is-sum-of-fees")
 			chk("C01", esc1.Sub(s.Esc0).Equal(total), "escrow-gains-sum-of-fees")
 		}
-		chk("C09 C10", post.BatchCounter == bc+1 && post.BatchState == types.BATCHRUNNING && post.State == types.RUNNING, "batch-started")
-		chk("C12", int(post.BatchRequestCount) == cnt && post.BatchResponseCount == 0 && post.BatchResponseThreshold == th, "batch-counts")
+		chk("C09 C10", vf.All(post.BatchCounter == bc+1, post.BatchState == types.BATCHRUNNING, post.State == types.RUNNING), "batch-started")
+		chk("C12", vf.All(int(post.BatchRequestCount) == cnt, post.BatchResponseCount == 0, post.BatchResponseThreshold == th), "batch-counts")
 		chk("C11", k.HasRequestBatchExpiration(ctx, id), "expiry-queued")
 		chk("C11 C08", expiryAt(k, ctx, id, s.H+timeout), "expiry-at-issue-plus-timeout")
-		chk("C12", len(s.Log.Resp) == 0 && len(s.Log.State) == 0, "no-callback-at-issue")
+		chk("C12", vf.All(len(s.Log.Resp) == 0, len(s.Log.State) == 0), "no-callback-at-issue")
 	} else {
-		chk("C06 C16", nreq == 0 && nact == 0, "no-requests")
+		chk("C06 C16", vf.All(nreq == 0, nact == 0), "no-requests")
 		chk("C06 C02 C05", balC1.Equal(s.BalC0), "no-debit")
 		chk("C01", esc1.Equal(s.Esc0), "escrow-unchanged")
 		if !running {
 			vf.Reach("not-running")
-			chk("C09", post.State == pre.State && post.BatchCounter == bc && post.BatchState == pre.BatchState, "untouched-when-not-running")
+			chk("C09", vf.All(post.State == pre.State, post.BatchCounter == bc, post.BatchState == pre.BatchState), "untouched-when-not-running")
 			chk("C11", !k.HasRequestBatchExpiration(ctx, id), "no-expiry-when-not-running")
-			chk("C12", len(s.Log.Resp) == 0 && len(s.Log.State) == 0, "no-callback-when-not-running")
+			chk("C12", vf.All(len(s.Log.Resp) == 0, len(s.Log.State) == 0), "no-callback-when-not-running")
 		} else if enough {
 			vf.Reach("paused-for-funds")
-			chk("C06 C09", post.State == types.PAUSED && post.BatchCounter == bc && post.BatchState == types.BATCHCOMPLETED, "paused-for-funds")
+			chk("C06 C09", vf.All(post.State == types.PAUSED, post.BatchCounter == bc, post.BatchState == types.BATCHCOMPLETED), "paused-for-funds")
 			chk("C11", !k.HasRequestBatchExpiration(ctx, id), "no-expiry-when-paused")
 			if pre.ModuleName != "" {
-				chk("C12", len(s.Log.State) == 1 && len(s.Log.Resp) == 0, "state-callback-on-pause")
+				chk("C12", vf.All(len(s.Log.State) == 1, len(s.Log.Resp) == 0), "state-callback-on-pause")
 			}
 		} else {
 			vf.Reach("skipped")
-			chk("C06 C09 C10", post.State == types.RUNNING && post.BatchCounter == bc+1 && post.BatchState == types.BATCHRUNNING, "skipped-counts-as-batch")
-			chk("C12", post.BatchRequestCount == 0 && post.BatchResponseCount == 0, "skipped-counts-zero")
+			chk("C06 C09 C10", vf.All(post.State == types.RUNNING, post.BatchCounter == bc+1, post.BatchState == types.BATCHRUNNING), "skipped-counts-as-batch")
+			chk("C12", vf.All(post.BatchRequestCount == 0, post.BatchResponseCount == 0), "skipped-counts-zero")
 			chk("C11", expiryAt(k, ctx, id, s.H+timeout), "skip-expiry-queued")
 		}
 	}
@@ -116,7 +116,7 @@ func sceneNewBatch(o ReqOpts) {
 	for i := 0; i < s.N; i++ {
 		if s.Binds[i].Present {
 			b, _ := k.GetServiceBinding(ctx, Svc, s.Provs[i])
-			chk("C04 C03 C14", b.Deposit.AmountOf(Denom).Equal(s.Binds[i].Deposit) && b.Available == s.Binds[i].Available, "binding-untouched")
+			chk("C04 C03 C14", vf.All(b.Deposit.AmountOf(Denom).Equal(s.Binds[i].Deposit), b.Available == s.Binds[i].Available), "binding-untouched")
 		}
 	}
 }
@@ -135,4 +135,96 @@ func expiryAt(k keeperT, ctx sdk.Context, id []byte, h int64) bool {
 func newBatchAt(k keeperT, ctx sdk.Context, id []byte, h int64) bool {
 	store := vf.Store(ctx)
 	return vf.And(k.HasNewRequestBatch(ctx, id), store.Has(types.GetNewRequestBatchKey(id, h)))
+}
+
+// sceneExpiry: the batch in flight of context X expires in this block; EndBlocker runs.
+func sceneExpiry(o ReqOpts) {
+	o.Batch, o.AtExpiry, o.AllBound, o.ZeroDep = true, true, true, 9
+	s := NewReqScene(o)
+	k, ctx, id, pre := s.K, s.Ctx, s.ID, s.Pre
+	bc := pre.BatchCounter
+
+	panicked := vf.Try(func() { service.EndBlocker(ctx, k) })
+	chk("C20", !panicked, "endblock-no-panic")
+	vf.Assume(!panicked)
+
+	// ---- settlement of the requests still pending: slash + refund (none in super mode)
+	refund := sdk.ZeroInt()
+	burned := sdk.ZeroInt()
+	nOut := 0
+	for j := 0; j < s.M; j++ {
+		b := s.Binds[j]
+		post, found := k.GetServiceBinding(ctx, Svc, s.Provs[j])
+		chk("C15", found, "binding-kept")
+		vf.Assume(found)
+		if s.Active[j] && !pre.SuperMode {
+			refund = refund.Add(s.Fee[j])
+			newDep, amt, avail, disabled := SlashRef(k, ctx, b, s.Now)
+			burned = burned.Add(amt)
+			chk("C04 C03", post.Deposit.AmountOf(Denom).Equal(newDep), "slashed-by-floor-of-fraction")
+			chk("C04 C14", post.Available == avail, "auto-disable-iff-below-minimum")
+			chk("C04", post.DisabledTime.Equal(disabled), "disabled-time-is-block-time")
+			chk("C14", vf.Implies(post.Available, post.Deposit.AmountOf(Denom).GTE(MinDepositRef(k, ctx, b.Pricing.Price.AmountOf(Denom)))), "available-holds-minimum")
+		} else {
+			chk("C04 C03", vf.All(post.Deposit.AmountOf(Denom).Equal(b.Deposit), post.Available == b.Available, post.DisabledTime.Equal(b.DisabledTime)), "not-slashed-without-failure")
+		}
+		if !s.Active[j] && s.Output[j] != "" {
+			nOut++
+		}
+		chk("C15", vf.All(post.Owner.Equals(s.Owner), post.Provider.Equals(s.Provs[j]), post.Pricing == b.Text, post.QoS == b.QoS), "binding-identity-stable")
+	}
+	chk("C02 C01", vf.Balance(s.Consumer).Sub(s.BalC0).Equal(refund), "pending-fees-refunded-to-consumer")
+	chk("C01 C02", s.Esc0.Sub(vf.ModuleBalance(types.RequestAccName)).Equal(refund), "escrow-releases-exactly-refunds")
+	chk("C03 C04", s.DepAcc0.Sub(vf.ModuleBalance(types.DepositAccName)).Equal(burned), "deposit-account-loses-slashed")
+	chk("C03 C04", s.Supply0.Sub(vf.Supply()).Equal(burned), "slashed-coins-burned")
+	chk("C02", vf.ModuleBalance("fee_collector").Equal(s.Collector0), "no-tax-at-expiry")
+
+	// ---- clean-up: nothing of the batch remains
+	nreq, nresp, nact := countRecords(k, ctx, id, bc)
+	chk("C16 C08", vf.All(nreq == 0, nresp == 0, nact == 0), "batch-records-removed")
+	for j := 0; j < s.M; j++ {
+		chk("C08 C16", !k.IsRequestActive(ctx, s.ReqIDs[j]), "no-longer-pending")
+		chk("C16", !vf.Store(ctx).Has(types.GetActiveRequestKey(Svc, s.Provs[j], s.ExpH, s.ReqIDs[j])), "binding-marker-removed")
+	}
+	chk("C11", vf.All(!k.HasRequestBatchExpiration(ctx, id), !vf.Store(ctx).Has(types.GetExpiredRequestBatchKey(id, s.H))), "expiry-entry-consumed")
+
+	// ---- callbacks: exactly one per batch, at completion
+	if pre.ModuleName != "" {
+		if pre.BatchState == types.BATCHRUNNING {
+			chk("C12", len(s.Log.Resp) == 1, "callback-once-at-expiry")
+			if len(s.Log.Resp) == 1 {
+				chk("C12", len(s.Log.Resp[0].Outputs) == nOut, "callback-outputs-are-nonempty-outputs")
+				chk("C12", s.Log.Resp[0].Err == (nOut < int(pre.BatchResponseThreshold)), "callback-error-iff-below-threshold")
+				chk("C12", string(s.Log.Resp[0].ID) == string(id), "callback-context")
+			}
+		} else {
+			chk("C12", len(s.Log.Resp) == 0, "no-second-callback-after-early-completion")
+		}
+		chk("C12", len(s.Log.State) == 0, "no-state-callback-at-expiry")
+	}
+
+	// ---- the context: removed when finished, otherwise rescheduled (running) or left (paused)
+	post, found := k.GetRequestContext(ctx, id)
+	finished := vf.Or(pre.State == types.COMPLETED,
+		vf.Or(!pre.Repeated, vf.And(pre.RepeatedTotal > 0, int64(bc) >= pre.RepeatedTotal)))
+	finishedRunningOrKilled := vf.Or(pre.State == types.COMPLETED, vf.And(pre.State == types.RUNNING,
+		vf.Or(!pre.Repeated, vf.And(pre.RepeatedTotal > 0, int64(bc) >= pre.RepeatedTotal))))
+	chk("C16 C09", vf.Implies(finishedRunningOrKilled, !found), "finished-context-removed")
+	// a paused context whose total is reached is finished as well (it can never legally run again)
+	chk("C16 C10", vf.Implies(finished, !found), "finished-paused-context-removed")
+	chk("C16 C09", vf.Implies(!finished, found), "unfinished-context-kept")
+	if found {
+		chk("C09", post.State == pre.State, "state-unchanged-at-expiry")
+		chk("C12 C09", post.BatchState == types.BATCHCOMPLETED, "batch-completed-at-expiry")
+		chk("C09 C10", post.BatchCounter == bc, "counter-unchanged-at-expiry")
+		chk("C09", immutableCtx(pre, post), "ctx-immutable-fields")
+		if pre.State == types.RUNNING {
+			chk("C10 C11", newBatchAt(k, ctx, id, s.H-pre.Timeout+int64(pre.RepeatedFrequency)), "next-batch-at-start-plus-frequency")
+			chk("C10 C11", s.H-pre.Timeout+int64(pre.RepeatedFrequency) >= s.H, "next-batch-not-in-the-past")
+		} else {
+			chk("C11 C09", !k.HasNewRequestBatch(ctx, id), "paused-context-not-rescheduled")
+		}
+	} else {
+		chk("C11 C16", !k.HasNewRequestBatch(ctx, id), "removed-context-not-rescheduled")
+	}
 }
